@@ -308,3 +308,19 @@ Definition successor_of (D : Z -> Prop) (now su : Z) (r : cand) : Prop :=
 
 (* a time zone without transitions: local time is UTC plus a constant *)
 Definition tz_const (lu ul : Z -> Z) : Prop := exists c, forall x, lu x = x - c /\ ul x = x + c.
+
+(* croniter's contract for one expression: the value returned for t is the earliest matching minute strictly after t *)
+Definition cron_ok (cron_next : cronx -> Z -> Z) (c : cronx) : Prop :=
+  forall t, let v := cron_next c t in
+            t < v /\ cron_match c v = true /\ forall t', t < t' -> t' < v -> cron_match c t' = false.
+
+(* the current time is a real reading of the local clock: everything later on the naive scale is later in UTC too
+   (false only for a naive time inside the hour skipped by a change to summer time) *)
+Definition real_now (lu : Z -> Z) (now : Z) : Prop := forall t', now < t' -> lu now < lu t'.
+
+Definition is_cron (s : tspec) : bool := match s with Cron _ => true | _ => false end.
+
+(* the hypotheses under which Properties/C06.v proves the successor property for a list of specifications *)
+Definition specs_ok (scale : N -> Z) (cron_next : cronx -> Z -> Z) (lu : Z -> Z) (specs : list tspec) (now : Z) : Prop :=
+  (forall s, In s specs -> in_fragment scale s = true) /\
+  (forall c, In (Cron c) specs -> cron_ok cron_next c /\ real_now lu now).
